@@ -181,6 +181,18 @@ StarC  == [Star EXCEPT !.ach = (1 :> ("broken" :> T1p @@ "fleeting" :> T1p @@ "f
 ChainC == [Chain EXCEPT !.bch = ({2,3} :> ("broken" :> P23 @@ "fleeting" :> R23p)),
                         !.bd[{1,2}].role = "broken", !.bst = ({3,4} :> D("PlanarBond", <<2, NoAtom, 3, 4, NoAtom, NoAtom>>, 0))]
 
+(* several descriptors at once, on neighbouring keys: a renaming that maps one key onto another key (swap, shift) must
+   not lose or overwrite an entry *)
+ChainTT == [Chain EXCEPT !.ast = (2 :> D("Tetrahedral", <<2, 1, 3, NoAtom, NoAtom>>, 1)) @@
+                                 (3 :> D("Tetrahedral", <<3, 2, 4, NoAtom, NoAtom>>, -1)),
+                         !.bst = ({1,2} :> D("PlanarBond", <<NoAtom, NoAtom, 1, 2, 3, NoAtom>>, 0)) @@
+                                 ({3,4} :> D("PlanarBond", <<2, NoAtom, 3, 4, NoAtom, NoAtom>>, 0))]
+
+ChainCC == [Chain EXCEPT !.ach = (2 :> ("broken" :> D("Tetrahedral", <<2, 1, 3, NoAtom, NoAtom>>, 1))) @@
+                                 (3 :> ("formed" :> D("Tetrahedral", <<3, 2, 4, NoAtom, NoAtom>>, -1))),
+                         !.bch = ({1,2} :> ("formed" :> D("PlanarBond", <<NoAtom, NoAtom, 1, 2, 3, NoAtom>>, 0))) @@
+                                 ({3,4} :> ("broken" :> D("PlanarBond", <<2, NoAtom, 3, 4, NoAtom, NoAtom>>, 0)))]
+
 (* descriptors that mention an atom which is not bonded to the centre / bond end any more *)
 StarU  == [StarT EXCEPT !.bd = Drop(@, {{1, 2}})]
 ChainU == [ChainP EXCEPT !.bd = Drop(@, {{1, 2}})]
@@ -211,8 +223,10 @@ GenSmall ==
 
 Seeds == CASE SeedSet = "empty"  -> { EmptyGraph(Kind) }
            [] SeedSet = "stereo" -> { EmptyGraph(Kind), Star, Chain } \cup
-                                    (IF HasStereo(Kind) THEN { StarT, ChainP, LoneT, StarU, ChainU } ELSE {}) \cup
+                                    (IF HasStereo(Kind) THEN { StarT, ChainP, LoneT, StarU, ChainU, ChainTT } ELSE {}) \cup
                                     (IF HasChanges(Kind) THEN { StarC, ChainC, LoneC, StarCU } ELSE {})
+           [] SeedSet = "multi"  -> (IF HasStereo(Kind) THEN { ChainTT } ELSE { Chain }) \cup
+                                    (IF HasChanges(Kind) THEN { ChainCC } ELSE {})
            [] SeedSet = "gen"    -> GenSmall
            [] SeedSet = "gen+stereo" -> GenSmall \cup { Star, Chain } \cup
                                     (IF HasStereo(Kind) THEN { StarT, ChainP } ELSE {}) \cup
